@@ -72,6 +72,10 @@ func zzC16Label(l string) (s string) {
 		return strings.Repeat("x", 63) + "1"
 	case "EMPTY":
 		return ""
+	case "KELVIN":
+		return "\u212aids"
+	case "IDOT":
+		return "adm\u0130n"
 	default:
 		return l
 	}
@@ -351,7 +355,7 @@ func TestZZVerifC16Replay(t *testing.T) {
 
 // ---------------------------------------------------------------- direction B
 
-const zzC16Alphabet = "abcxyzABCXYZ0189-_.é "
+const zzC16Alphabet = "abcxyzABCXYZ0189-_.é \u212a\u0130\u017f"
 
 func zzC16RandLabel(rng *rand.Rand) (s string) {
 	switch rng.Intn(10) {
